@@ -21,6 +21,8 @@ def file_bytes(rng, n=None):
 
 def link_targets(base, decoys=True):
     t = ['a', './a', 'a//b', 'a/', 'nowhere', '.', '..', 'L1', 'a\\b', '../b', 'a/./b/', '/abs/nowhere', '/', './/x///y', '../../..', 'b/../a']
+    # texts with control characters, blanks, quotes, a multi-byte character, a very long component: whatever renders a path for people must not reach the wire
+    t += ['new\nline', 'tab\there', 'esc\x1b[0m', ' lead', 'trail ', 'qu"ote\'s', 'caf\u00e9/\u65e5\u672c', 'x' * 200, 'a/\r/b', '\x7f']
     if decoys:
         t += [base + '/outside', base + '/outside/', base + '/outside_file', '../outside', '../../outside/sub', '../outside_file', base + '/outside/loop']
     return t
@@ -311,3 +313,11 @@ def small_texts(maxlen):
     for n in range(1, maxlen + 1):
         for c in itertools.product(syms, repeat=n):
             yield b''.join(c)
+    # plus every such text of up to 2 symbols with one control / blank / quote character in front, inside or behind
+    for x in [b'\n', b'\t', b'\x1b', b' ', b'"', b'\r', b'\x7f', b'\x01']:
+        yield x
+        for n in (1, 2):
+            for c in itertools.product(syms[:3], repeat=n):
+                t = b''.join(c)
+                yield x + t; yield t + x
+                if n == 2: yield c[0] + x + c[1]
